@@ -329,7 +329,9 @@ def rule_c13(ctx):
             viol += 1
             continue
         new_ev = _ev(o, "new")[0]
-        if "from_parts" not in repr(new_ev[1][0]) and "take_request" not in repr(new_ev[1][0]):
+        a0 = repr(new_ev[1][0])
+        # the request handed over is the one stored in the previous call (AmendedRequest.request of this flow)
+        if not ("('in', 'flow')" in a0 and "('f', 'request'), ('f', 'request')" in a0):
             viol += 1
     ctx.check(viol == 0, "R13.4", "rebuilt-from-original",
               "the request handed to the new flow is the original request taken out of the previous call",
